@@ -29,6 +29,8 @@ class JobResult:
         self.ok_paths = 0
         self.aborted = 0
         self.limited = 0
+        self.capped = False
+        self.cpu = 0.0
         self.limit_errors = []
         self.errors = []
         self.obligations = 0
@@ -103,7 +105,7 @@ class JobResult:
             'inconclusive': len(self.inconclusive), 'violations': sum(self.viol_keys.values()),
             'events': self.events, 'reached': self.reached, 'solver_checks': self.checks,
             'solver_s': round(self.solver_s, 3), 'unknown_feasibility': self.unknown_feas,
-            'complete': self.complete, 'wall_s': round(self.wall, 2),
+            'complete': self.complete, 'capped': self.capped, 'wall_s': round(self.wall, 2),
         }
 
 
@@ -223,9 +225,22 @@ def explore(jobs, nworkers=None, budget_s=600, max_paths=None, stop_on_violation
             outstanding[ji] -= 1
             total_paths += 1
             results[ji].add(r)
-            stacks[ji].extend(r['new_prefixes'])
+            cap = jobs[ji].opts.get('max_paths')
+            results[ji].cpu += r.get('wall', 0.0)
+            tcap = jobs[ji].opts.get('max_job_seconds')
+            if tcap and results[ji].cpu >= tcap and (r['new_prefixes'] or stacks[ji]):
+                results[ji].capped = True
+                stacks[ji].clear()
+            elif cap and results[ji].paths >= cap and (r['new_prefixes'] or stacks[ji]):
+                results[ji].capped = True
+                stacks[ji].clear()
+            elif jobs[ji].opts.get('stop_on_error') and r['status'] == 'error':
+                results[ji].capped = True
+                stacks[ji].clear()
+            else:
+                stacks[ji].extend(r['new_prefixes'])
             if not stacks[ji] and outstanding[ji] == 0:
-                results[ji].complete = True
+                results[ji].complete = not results[ji].capped
                 results[ji].wall = time.time() - started[ji]
             if progress and total_paths % 500 == 0:
                 progress(total_paths, sum(len(s) for s in stacks), time.time() - t_start)
